@@ -7,6 +7,10 @@
 (***************************************************************************)
 EXTENDS Integers, Sequences, FiniteSets, TLC, Geometry, Dcs
 
+PMerge(new, old) ==
+  IF DOMAIN old = {} THEN new ELSE
+  LET dn == DOMAIN new IN [c \in dn \cup DOMAIN old |-> IF c \in dn THEN new[c] ELSE old[c]]
+
 ColourMod(cfg) == IF cfg.colour = "565" THEN 65536 ELSE 262144
 Colour(cfg, v) == v % ColourMod(cfg)
 
@@ -22,7 +26,7 @@ APaint(img, cfg, o, px) ==
       CellI(i) == Place(cfg, o, px[i][1], px[i][2])
       cells == {CellI(i) : i \in vis}
       LastW(c) == CHOOSE i \in vis : CellI(i) = c /\ \A j \in vis : j > i => CellI(j) # c
-  IN  IF vis = {} THEN img ELSE [c \in cells |-> Colour(cfg, px[LastW(c)][3])] @@ img
+  IN  IF vis = {} THEN img ELSE PMerge([c \in cells |-> Colour(cfg, px[LastW(c)][3])], img)
 
 AllInBox(cfg, o, px) == \A i \in 1 .. Len(px) : InBox(cfg, o, px[i][1], px[i][2])
 NumInBox(cfg, o, px) == Cardinality({i \in 1 .. Len(px) : InBox(cfg, o, px[i][1], px[i][2])})
@@ -31,8 +35,8 @@ AFillSolid(img, cfg, o, r, col) ==
   LET s == LogicalSize(cfg, o)
       cr == RClip(r, s[1], s[2])
   IN IF REmpty(cr) THEN img
-     ELSE [c \in {Place(cfg, o, x, y) : x \in cr[1] .. RRight(cr), y \in cr[2] .. RBottom(cr)}
-             |-> Colour(cfg, col)] @@ img
+     ELSE PMerge([c \in {Place(cfg, o, x, y) : x \in cr[1] .. RRight(cr), y \in cr[2] .. RBottom(cr)}
+             |-> Colour(cfg, col)], img)
 
 \* k-th colour (k from 0) of the stream  start, start+1, ...  of length len (len < 0: unbounded)
 \* goes to the k-th point of r in row-major order, if that point is visible
@@ -46,8 +50,8 @@ AFillContig(img, cfg, o, r, start, len) ==
                     KBelow(p[2] - r[2], r[3], p[1] - r[1], len)}
          K(p) == (p[2] - r[2]) * r[3] + (p[1] - r[1])
      IN IF pts = {} THEN img
-        ELSE [c \in {Place(cfg, o, p[1], p[2]) : p \in pts} |->
-                LET p == PlaceInv(cfg, o, c) IN Colour(cfg, start + K(p))] @@ img
+        ELSE PMerge([c \in {Place(cfg, o, p[1], p[2]) : p \in pts} |->
+                LET p == PlaceInv(cfg, o, c) IN Colour(cfg, start + K(p))], img)
 RectInBox(cfg, o, r) ==
   LET s == LogicalSize(cfg, o) IN REmpty(r) \/ RClip(r, s[1], s[2]) = r
 VisibleArea(cfg, o, r) ==
@@ -63,8 +67,8 @@ ASetPixels(img, cfg, o, win, cols) ==
   LET ww == win[3] - win[1] + 1
       n == Len(cols)
   IN IF n = 0 THEN img ELSE
-     [c \in {Place(cfg, o, win[1] + (k % ww), win[2] + (k \div ww)) : k \in 0 .. n - 1} |->
-        LET p == PlaceInv(cfg, o, c) IN Colour(cfg, cols[(p[2] - win[2]) * ww + (p[1] - win[1]) + 1])] @@ img
+     PMerge([c \in {Place(cfg, o, win[1] + (k % ww), win[2] + (k \div ww)) : k \in 0 .. n - 1} |->
+        LET p == PlaceInv(cfg, o, c) IN Colour(cfg, cols[(p[2] - win[2]) * ww + (p[1] - win[1]) + 1])], img)
 
 \* the whole panel window in one colour (C12 recovery check)
 WindowAll(cfg, col) ==
